@@ -46,6 +46,12 @@ def handle (op : String) (args : List String) : Option String :=
     | _ =>
       pure (showOutcome out ++ "\t" ++ showValue s.event ++ "\t" ++ showValue s.metadata ++ "\t" ++
         showVars s.vars ++ "\tlog " ++ " | ".intercalate (s.log.reverse.map showAccess))
+  | "o.c17.nopanic", [tag, _src, _event, _metadata, faults, "|", cls, _nops] =>
+    -- Spec on the implementation's observation: no panic under any fault schedule; a rejected root
+    -- read (operation 0) ends the run with an error.
+    if cls == "panic" then some ("fails nopanic:" ++ tag)
+    else if (natList faults).map (·.contains 0) == some true && cls != "error" then some ("fails root_error:" ++ tag)
+    else some "holds"
   | _, [_src, event, metadata, faults, "|", prog, errs, o1, o2, o3, o4] =>
     -- Spec oracle: when the run exercises the construct the property is about (a `return`, an
     -- `abort`, a closure call, `??`/`ok, err =`, `||`/`&&`/`if`), the implementation's observed
